@@ -30,6 +30,10 @@ pub struct TKnobs {
 pub struct Program {
     pub knobs: TKnobs,
     pub preload: Vec<OrderSpec>,
+    /// preloaded ids that are added, cancelled and added again during setup, so that a ticket
+    /// of the cancelled instance is still in the queue when the threads start
+    #[serde(default)]
+    pub churn: Vec<IdS>,
     pub threads: Vec<Vec<Op>>,
     pub strategy: Strategy,
     pub sched_seed: u64,
@@ -119,6 +123,31 @@ impl Observer for Obs {
     }
 }
 
+/// Feed the step trace to a digest; atomics are identified by their address, which is
+/// replaced by its index of first appearance (addresses differ between processes).
+pub fn digest_trace(dg: &mut Digest, trace: &[Ev]) {
+    let mut canon: BTreeMap<u64, u64> = BTreeMap::new();
+    for e in trace {
+        dg.u64(
+            (e.kind as u64) << 56
+                | (e.tid as u64) << 48
+                | (e.op as u64) << 40
+                | (e.site as u64) << 32
+                | (e.outcome as u64) << 24,
+        );
+        let key = if matches!(
+            e.site,
+            Site::AtomicLoad | Site::AtomicStore | Site::AtomicRmw
+        ) {
+            let n = canon.len() as u64;
+            *canon.entry(e.key).or_insert(n)
+        } else {
+            e.key
+        };
+        dg.u64(key);
+    }
+}
+
 fn fp_of(id: IdS) -> u64 {
     fingerprint(&id.to_lib())
 }
@@ -197,6 +226,19 @@ pub fn run_program(p: &Program) -> TOutcome {
         let level = PriceLevel::new(lp);
         for o in &p.preload {
             level.add_order(o.to_lib());
+            if p.churn.contains(&o.id) {
+                let _ = level.update_order(
+                    UpdSpec {
+                        kind: UpdKind::Cancel,
+                        id: o.id,
+                        price: 0,
+                        qty: 0,
+                        buy: false,
+                    }
+                    .to_lib(),
+                );
+                level.add_order(o.to_lib());
+            }
         }
         Arc::new(level)
     };
@@ -325,16 +367,7 @@ pub fn run_program(p: &Program) -> TOutcome {
 
     // ---- digest of the whole event log
     let mut dg = Digest::default();
-    for e in &trace {
-        dg.u64(
-            (e.kind as u64) << 56
-                | (e.tid as u64) << 48
-                | (e.op as u64) << 40
-                | (e.site as u64) << 32
-                | (e.outcome as u64) << 24,
-        );
-        dg.u64(e.key);
-    }
+    digest_trace(&mut dg, &trace);
     for (t, rs) in responses.iter().enumerate() {
         for r in rs {
             dg.u64(t as u64);
@@ -468,8 +501,9 @@ pub fn run_program(p: &Program) -> TOutcome {
             s.value_executed() as u128,
         )
     });
-    let mut exp_added = p.preload.len() as u128;
-    let mut exp_removed = 0u128;
+    let churned = p.preload.iter().filter(|o| p.churn.contains(&o.id)).count() as u128;
+    let mut exp_added = p.preload.len() as u128 + churned;
+    let mut exp_removed = churned;
     let mut exp_qty = 0u128;
     for (t, rs) in responses.iter().enumerate() {
         for (i, r) in rs.iter().enumerate() {
@@ -501,6 +535,38 @@ pub fn run_program(p: &Program) -> TOutcome {
     };
     c15("orders_added", st.0, exp_added, "at quiescence", &mut out);
     c15("orders_removed", st.1, exp_removed, "at quiescence", &mut out);
+    // the same figure from what actually happened to the orders: every order added either still
+    // rests, or was filled by a match (it is named in some filled-order list), or was removed
+    let mut filled_union: BTreeSet<IdS> = BTreeSet::new();
+    let mut any_failed = false;
+    for rs in &responses {
+        for r in rs {
+            match r {
+                Resp::Matched { filled, .. } => filled_union.extend(filled.iter().cloned()),
+                Resp::Failed(_) | Resp::Skipped => any_failed = true,
+                _ => {}
+            }
+        }
+    }
+    if !any_failed {
+        let acct = exp_added as i128 - listing.len() as i128 - filled_union.len() as i128;
+        if acct != st.1 as i128 {
+            viol(
+                "C15",
+                "orders_removed",
+                0,
+                format!(
+                    "at quiescence: statistics orders_removed = {}, but {} orders were added, {} still rest and {} were filled by matches, so {} were removed",
+                    st.1,
+                    exp_added,
+                    listing.len(),
+                    filled_union.len(),
+                    acct
+                ),
+                &mut out,
+            );
+        }
+    }
     c15("quantity_executed", st.2, exp_qty, "at quiescence", &mut out);
     if all_at_price {
         c15("value_executed", st.3, exp_qty * lp as u128, "at quiescence", &mut out);
@@ -528,6 +594,18 @@ pub fn run_program(p: &Program) -> TOutcome {
         Ok(m) => {
             let after = read_listing(&level);
             let (v, h, c) = read_aggs(&level);
+            if let Some(o) = after.iter().find(|o| o.vis == 0 && crate::model::matchable(o) > 0) {
+                viol(
+                    "C08",
+                    "not-drained",
+                    0,
+                    format!(
+                        "after a draining match {} still rests although its hidden quantity is replenishable",
+                        o.brief()
+                    ),
+                    &mut out,
+                );
+            }
             if let Some(o) = after.iter().find(|o| o.vis > 0) {
                 viol(
                     "C08",
@@ -956,9 +1034,33 @@ pub fn analyse(
                                 let reinserts = v.iter().any(|f| {
                                     f.k > hd.k && f.site == Site::MapInsert && f.tid == hd.tid && f.op == hd.op
                                 });
-                                let sig = match (hk, reinserts) {
-                                    (OpK::Match, true) => "not-found-inflight-match",
-                                    (OpK::Amend, true) => "not-found-inflight-amend",
+                                // the listed finding is about a matcher *working on* the order:
+                                // between taking it out and putting it back it performs atomic
+                                // updates (counters, statistics, id generator)
+                                let back = v
+                                    .iter()
+                                    .find(|f| {
+                                        f.k > hd.k
+                                            && f.site == Site::MapInsert
+                                            && f.tid == hd.tid
+                                            && f.op == hd.op
+                                    })
+                                    .map(|f| f.k)
+                                    .unwrap_or(usize::MAX);
+                                let worked = trace.iter().enumerate().any(|(k, e)| {
+                                    k > hd.k
+                                        && k < back
+                                        && e.kind == EvKind::Step
+                                        && e.tid as usize == hd.tid
+                                        && e.op as usize == hd.op
+                                        && matches!(
+                                            e.site,
+                                            Site::AtomicRmw | Site::AtomicStore | Site::AtomicLoad
+                                        )
+                                });
+                                let sig = match (hk, reinserts, worked) {
+                                    (OpK::Match, true, true) => "not-found-inflight-match",
+                                    (OpK::Amend, true, _) => "not-found-inflight-amend",
                                     _ => "not-found-while-in-book",
                                 };
                                 *a.probes.entry("untruthful_not_found").or_insert(0) += 1;
